@@ -230,7 +230,7 @@ func cmdCheck(args []string) int {
 	violations, knownHits := 0, 0
 	var inconclusive []string
 	printedKnown := map[string]bool{}
-	replayDir := filepath.Join(verifDir(), "replays", id)
+	replayDir := filepath.Join(outDir(), "replays", id)
 	os.MkdirAll(replayDir, 0755)
 	nReplay := 0
 	type jobOut struct {
@@ -646,7 +646,7 @@ func cmdReplay(args []string) int {
 		return 2
 	}
 	j := Job{Pkg: rf.Pkg, Func: rf.Func, Params: rf.Params, Setup: rf.Setup}
-	dir := filepath.Join(verifDir(), "replays", rf.Property)
+	dir := filepath.Join(outDir(), "replays", rf.Property)
 	os.MkdirAll(dir, 0755)
 	rp := newReplayer(j, l.pkgs[rf.Pkg].Pkg.Name(), dir)
 	defer rp.cleanup()
@@ -803,8 +803,8 @@ func writeEvidence(id, tier string, seed int, ck Check, reports []jobReport, wal
 		ev["level"] = "model_checking"
 	}
 	b, _ := json.MarshalIndent(ev, "", " ")
-	os.MkdirAll(filepath.Join(verifDir(), "evidence"), 0755)
-	os.WriteFile(filepath.Join(verifDir(), "evidence", id+".json"), b, 0644)
+	os.MkdirAll(filepath.Join(outDir(), "evidence"), 0755)
+	os.WriteFile(filepath.Join(outDir(), "evidence", id+".json"), b, 0644)
 }
 
 func round2(f float64) float64 { return float64(int64(f*100+0.5)) / 100 }
